@@ -53,14 +53,14 @@ func Run(c *core.Ctx) {
 		r8(c, s)
 	}
 	Automaton(c, "R5.automaton", false)
-	c.Expect("R1.fifo", 7)
-	c.Expect("R2.enqueue", 4)
-	c.Expect("R3.sender", 14)
-	c.Expect("R4.barrier", 2)
-	c.Expect("R5.automaton", 22)
-	c.Expect("R6.payload", 8)
-	c.Expect("R7.polarity", 5)
-	c.Expect("R8.ticker", 3)
+	Expect(c, "R1.fifo", 7)
+	Expect(c, "R2.enqueue", 4)
+	Expect(c, "R3.sender", 14)
+	Expect(c, "R4.barrier", 2)
+	Expect(c, "R5.automaton", 22)
+	Expect(c, "R6.payload", 8)
+	Expect(c, "R7.polarity", 5)
+	Expect(c, "R8.ticker", 3)
 }
 
 // ---------------------------------------------------------------------------
